@@ -51,7 +51,7 @@ def projObj (_scn : Scn) (k : Key) (o : Obj) : String :=
 
 /-- see `projSet` in conv.go: Succeeded is a latch and an archived revision's status is frozen —
 both record history, not state. -/
-def projSet (scn : Scn) (o : OSet) : String :=
+def projSet (scn : Scn) (s : Sys) (o : OSet) : String :=
   let superseded := (scn.sets.getD []).any fun js => (js.previous.getD []).contains o.name
   let archived := condTrue o.conds "Archived"
   let conds := o.conds.filterMap fun c =>
@@ -59,9 +59,13 @@ def projSet (scn : Scn) (o : OSet) : String :=
     else if archived && c.type ≠ "Archived" then none
     else if c.type = "Succeeded" then some { c with obsGen := 0 }
     else some c
-  -- uids are identities of incarnations (history): status.remotePhases is compared by name
+  -- the uid itself is the identity of an incarnation (history); what is state is whether the entry
+  -- refers to the phase object that exists now (`rpState` in conv.go)
   -- (of an archived revision the list is frozen at archival like the conditions: history)
-  osetStr { o with conds := conds, remotePhases := if archived then [] else o.remotePhases.map fun r => (r.1, "") }
+  let rpState := fun (r : String × String) => match s.w.phases r.1 with
+    | some po => if po.uid = r.2 then "live" else "stale"
+    | none => "stale"
+  osetStr { o with conds := conds, remotePhases := if archived then [] else o.remotePhases.map fun r => (r.1, rpState r) }
 
 /-- see `projPhase` in conv.go: the phase object's generation counts PKO's own pause patches
 (history); a condition is compared by whether it refers to the current generation. -/
@@ -69,7 +73,7 @@ def projPhase (p : OPhase) : String :=
   ophaseStr { p with gen := 0, conds := p.conds.map fun c => { c with obsGen := if c.obsGen = p.gen then 1 else 0 } }
 
 def projection (scn : Scn) (cfg : Cfg) (s : Sys) : String :=
-  let sets := sortStrings (((setNames scn).filterMap fun n => (s.sets n).map (projSet scn)) ++
+  let sets := sortStrings (((setNames scn).filterMap fun n => (s.sets n).map (projSet scn s)) ++
     ((allPhaseNames scn).filterMap fun n => (s.w.phases n).map projPhase))
   let objs := sortStrings ((managedKeys scn cfg).filterMap fun k => (s.w.store.get k).map (projObj scn k))
   ";".intercalate sets ++ " @ " ++ ";".intercalate objs
